@@ -1,8 +1,242 @@
-(* Proofs about the exception-trace model (C20). *)
+(* Proofs about the exception-trace model (C20): line numbering and the snippet window; the highlighter shows the
+   rows of the source in their places and every row made of single-line tokens verbatim (up to trailing white
+   space); compact keeps frames; the stack trace lists kept frames only. *)
 From Coq Require Import Lia.
-From Clikit Require Import Base.Prelude Base.Res Model.Conv Model.Markup Model.OutputM Model.Trace.
+From Clikit Require Import Base.Prelude Base.Res Model.Conv Model.Markup Model.OutputM Model.Trace Proofs.OutputLemmas.
 
+(* ------------------------------------------------------------------ line numbers and the snippet window *)
+Definition number_line (u : ui) (w mark i : Z) (l : str) : str :=
+  (if (mark =? i)%Z then tagged th_marker (u_arrow u) ++ [32%N] else [32; 32]%N)
+    ++ tagged (if (mark =? i)%Z then th_bold_default else th_lineno) (rjust (dec_text i) w)
+    ++ tagged th_lineno (u_delim u) ++ [32%N] ++ l.
 Lemma number_from_length u w mark : forall lines i, length (number_from u w mark i lines) = length lines.
 Proof. induction lines as [|l r IH]; intros i; cbn [number_from length]; [reflexivity|]. now rewrite IH. Qed.
 Lemma line_numbers_length_l u lines mark : length (line_numbers u lines mark) = length lines.
 Proof. apply number_from_length. Qed.
+Lemma number_from_nth u w mark : forall lines i k d,
+  (k < length lines)%nat ->
+  nth k (number_from u w mark i lines) d = number_line u w mark (i + Z.of_nat k)%Z (nth k lines []).
+Proof.
+  induction lines as [|l r IH]; intros i k d Hk; cbn [length] in Hk; [lia|].
+  destruct k as [|k]; cbn [number_from nth].
+  - unfold number_line. now rewrite Z.add_0_r.
+  - rewrite IH by lia. f_equal. lia.
+Qed.
+(* the k-th line carries the number k+1, right-aligned, and the marker exactly when k+1 is the marked line *)
+Lemma line_numbers_nth u lines mark k d :
+  (k < length lines)%nat ->
+  nth k (line_numbers u lines mark) d
+  = number_line u (number_width (length lines)) mark (Z.of_nat k + 1)%Z (nth k lines []).
+Proof. intros Hk. unfold line_numbers. rewrite number_from_nth by exact Hk. f_equal. lia. Qed.
+
+Definition marked (u : ui) (s : str) : Prop := exists rest, s = tagged th_marker (u_arrow u) ++ rest.
+Lemma tagged_not_blank st t rest : tagged st t ++ rest <> 32%N :: 32%N :: rest.
+Proof. unfold tagged. cbn. intros H. inversion H. Qed.
+Lemma number_line_marked u w mark i l : marked u (number_line u w mark i l) <-> mark = i.
+Proof.
+  unfold number_line, marked. destruct (Z.eqb_spec mark i) as [->|Hn]; split.
+  - reflexivity.
+  - intros _. eexists. rewrite <- app_assoc. reflexivity.
+  - intros (rest & H). unfold tagged in H. cbn in H. inversion H.
+  - intros H. contradiction.
+Qed.
+Lemma marks_exactly_l u lines mark k d :
+  (k < length lines)%nat -> (marked u (nth k (line_numbers u lines mark) d) <-> mark = (Z.of_nat k + 1)%Z).
+Proof. intros Hk. rewrite line_numbers_nth by exact Hk. apply number_line_marked. Qed.
+
+(* the snippet is a window of consecutive numbered lines that contains the marked line *)
+Lemma code_snippet_window u toks line before after :
+  code_snippet u toks line before after
+  = firstn (Z.to_nat (after + before + 1)) (skipn (Z.to_nat (Z.max (line - before - 1) 0)) (line_numbers u (split_to_lines toks) line)).
+Proof. reflexivity. Qed.
+Lemma nth_firstn_lt {X} : forall n (l : list X) k d, (k < n)%nat -> nth k (firstn n l) d = nth k l d.
+Proof.
+  induction n as [|n IH]; intros l k d Hk; [lia|]. destruct l as [|x l]; cbn [firstn]; [reflexivity|].
+  destruct k; cbn [nth]; [reflexivity|]. apply IH. lia.
+Qed.
+Lemma nth_skipn_add {X} : forall a (l : list X) k d, nth k (skipn a l) d = nth (a + k) l d.
+Proof.
+  induction a as [|a IH]; intros l k d; [reflexivity|]. destruct l as [|x l]; cbn [skipn plus nth]; [destruct k; reflexivity|]. apply IH.
+Qed.
+Lemma nth_firstn_skipn {X} (l : list X) a n k d : (k < n)%nat -> nth k (firstn n (skipn a l)) d = nth (a + k) l d.
+Proof. intros Hk. rewrite nth_firstn_lt by exact Hk. apply nth_skipn_add. Qed.
+Lemma code_snippet_nth u toks line before after k d :
+  (0 <= before)%Z -> (0 <= after)%Z -> (Z.of_nat k < after + before + 1)%Z ->
+  let off := Z.to_nat (Z.max (line - before - 1) 0) in
+  (off + k < length (split_to_lines toks))%nat ->
+  nth k (code_snippet u toks line before after) d
+  = number_line u (number_width (length (split_to_lines toks))) line (Z.of_nat (off + k) + 1)%Z (nth (off + k) (split_to_lines toks) []).
+Proof.
+  intros Hb Ha Hk off Hlen. rewrite code_snippet_window. fold off.
+  rewrite nth_firstn_skipn by lia. apply line_numbers_nth. exact Hlen.
+Qed.
+(* the failing line is in the window *)
+Lemma code_snippet_has_line toks line before after :
+  (0 <= before)%Z -> (0 <= after)%Z -> (1 <= line)%Z -> (line <= Z.of_nat (length (split_to_lines toks)))%Z ->
+  exists k, (Z.of_nat k < after + before + 1)%Z /\
+    (Z.of_nat (Z.to_nat (Z.max (line - before - 1) 0) + k) + 1)%Z = line /\
+    (Z.to_nat (Z.max (line - before - 1) 0) + k < length (split_to_lines toks))%nat.
+Proof.
+  intros Hb Ha H1 Hn. exists (Z.to_nat (line - 1 - Z.max (line - before - 1) 0)). lia.
+Qed.
+
+(* ------------------------------------------------------------------ strings *)
+Lemma firstn_add {X} (l : list X) : forall n m, firstn (n + m) l = firstn n l ++ firstn m (skipn n l).
+Proof.
+  induction l as [|x l IH]; intros n m.
+  - rewrite skipn_nil, !firstn_nil. reflexivity.
+  - destruct n as [|n]; cbn [plus firstn skipn app]; [reflexivity|]. now rewrite IH.
+Qed.
+Lemma firstn_slice (l : str) a b : (0 <= a <= b)%Z -> firstn (Z.to_nat a) l ++ slice l a b = firstn (Z.to_nat b) l.
+Proof. intros H. unfold slice. rewrite <- firstn_add. f_equal. lia. Qed.
+Lemma slice_empty (l : str) a : slice l a a = [].
+Proof. unfold slice. now rewrite Z.sub_diag. Qed.
+
+Lemma lstrip_app_lstrip x y : lstrip (lstrip x ++ y) = lstrip (x ++ y).
+Proof.
+  induction x as [|c x IH]; cbn [lstrip app]; [reflexivity|].
+  destruct (is_space c) eqn:E; [exact IH|]. cbn [app lstrip]. now rewrite E.
+Qed.
+Lemma lstrip_spaces s y : Forall (fun c => is_space c = true) s -> lstrip (s ++ y) = lstrip y.
+Proof. induction 1 as [|c s Hc _ IH]; cbn [app lstrip]; [reflexivity|]. now rewrite Hc. Qed.
+Lemma rstrip_app_rstrip a b : rstrip_ws (a ++ rstrip_ws b) = rstrip_ws (a ++ b).
+Proof. unfold rstrip_ws. rewrite !rev_app_distr, rev_involutive. f_equal. apply lstrip_app_lstrip. Qed.
+Lemma rstrip_app_spaces a s : Forall (fun c => is_space c = true) s -> rstrip_ws (a ++ s) = rstrip_ws a.
+Proof.
+  intros H. unfold rstrip_ws. rewrite rev_app_distr. f_equal. apply lstrip_spaces.
+  apply Forall_forall. intros c Hc. apply in_rev in Hc. rewrite Forall_forall in H. auto.
+Qed.
+Lemma NL_space : is_space NL = true. Proof. reflexivity. Qed.
+Lemma rstrip_nl_ws a b : rstrip_ws (a ++ rstrip_nl b) = rstrip_ws (a ++ b).
+Proof.
+  destruct (rstrip_nl_spec b) as (k & E & _). rewrite E at 2. rewrite app_assoc. symmetry. apply rstrip_app_spaces.
+  apply Forall_forall. intros c Hc. apply repeat_spec in Hc. subst. exact NL_space.
+Qed.
+Lemma rstrip_nl_no_nl b : ~ In NL b -> rstrip_nl b = b.
+Proof.
+  intros H. apply rstrip_nl_id. destruct (rev b) as [|c r] eqn:E; [exact I|].
+  intros ->. apply H. apply in_rev. rewrite E. now left.
+Qed.
+
+(* ------------------------------------------------------------------ the highlighter: rows in their places *)
+Definition text_of (st : hst) : str := chunks_text (h_line st) ++ h_buf st.
+Lemma chunks_text_app a b : chunks_text (a ++ b) = chunks_text a ++ chunks_text b.
+Proof. unfold chunks_text. apply flat_map_app. Qed.
+
+(* a token of row r that lies on the physical line ln *)
+Definition tok_on (ln : str) (r : Z) (t : token) : Prop :=
+  tk_srow t = r /\ tk_erow t = r /\ tk_line t = ln /\ (0 <= tk_scol t <= tk_ecol t)%Z /\ tk_kind t <> TkEnd /\ r <> 0%Z /\
+  (new_type t <> None -> tk_str t = slice ln (tk_scol t) (tk_ecol t)).
+(* the tokens of a row, from column c on: ordered, each covering its own slice of the line *)
+Fixpoint row_wf (ln : str) (r c : Z) (ts : list token) : Prop :=
+  match ts with
+  | [] => True
+  | t :: rest => tok_on ln r t /\
+                 match new_type t with
+                 | None => row_wf ln r c rest
+                 | Some _ => (c <= tk_scol t)%Z /\ row_wf ln r (tk_ecol t) rest
+                 end
+  end.
+Fixpoint row_end (c : Z) (ts : list token) : Z :=
+  match ts with
+  | [] => c
+  | t :: rest => match new_type t with None => row_end c rest | Some _ => row_end (tk_ecol t) rest end
+  end.
+Definition run_tokens (ts : list token) (st : hst) : hst := fold_left hl_token ts st.
+
+(* the state while a row is being read: the text so far is the line up to the current column *)
+Definition on_row (ln : str) (r c : Z) (st : hst) : Prop :=
+  h_curline st = r /\ h_curcol st = c /\ (0 <= c)%Z /\ text_of st = firstn (Z.to_nat c) ln /\
+  (h_last st = Some ln \/ (h_last st = None /\ c = 0%Z)).
+
+Lemma hl_newline_same st t : tk_srow t = h_curline st -> hl_newline st t = st.
+Proof. intros H. unfold hl_newline. rewrite H, Z.ltb_irrefl. reflexivity. Qed.
+
+Lemma hl_token_on_row ln r c st t :
+  on_row ln r c st -> tok_on ln r t ->
+  match new_type t with
+  | None => hl_token st t = st
+  | Some _ => (c <= tk_scol t)%Z -> on_row ln r (tk_ecol t) (hl_token st t) /\ h_lines (hl_token st t) = h_lines st
+              /\ h_last (hl_token st t) = Some ln
+  end.
+Proof.
+  intros (Hl & Hc & Hc0 & Ht & Hlast) (Hs & He & Hln & Hcols & _ & _ & Hstr).
+  unfold hl_token. rewrite hl_newline_same by congruence.
+  destruct (new_type t) as [nt|] eqn:Ent; [|reflexivity].
+  intros Hle. specialize (Hstr ltac:(discriminate)).
+  assert ((tk_srow t <? tk_erow t)%Z = false) as Esl by (apply Z.ltb_ge; lia). rewrite Esl.
+  set (cur := match h_type st with Some c0 => c0 | None => nt end).
+  set (buf := if (h_curcol st <? tk_scol t)%Z then h_buf st ++ slice (tk_line t) (h_curcol st) (tk_scol t) else h_buf st).
+  assert (chunks_text (h_line st) ++ buf = firstn (Z.to_nat (tk_scol t)) ln) as Hbuf.
+  { unfold buf. rewrite Hc, Hln. destruct (Z.ltb_spec c (tk_scol t)).
+    - rewrite app_assoc. unfold text_of in Ht. rewrite Ht. apply firstn_slice. lia.
+    - assert (tk_scol t = c) as -> by lia. exact Ht. }
+  cbn [h_lines h_curline h_curcol h_buf h_type h_line h_last]. split; [|split; [reflexivity|now rewrite Hln]].
+  unfold on_row, text_of. cbn [h_lines h_curline h_curcol h_buf h_type h_line h_last].
+  repeat split; try lia; [|left; now rewrite Hln].
+  rewrite Hstr. rewrite <- (firstn_slice ln (tk_scol t) (tk_ecol t)) by lia. rewrite <- Hbuf.
+  destruct (negb (hl_eqb cur nt) && negb (ends_with_bsl buf)).
+  - rewrite chunks_text_app. unfold chunks_text at 2. cbn [flat_map snd]. now rewrite !app_nil_r, app_nil_l.
+  - now rewrite app_assoc.
+Qed.
+
+Lemma run_row ln r : forall ts c st,
+  on_row ln r c st -> row_wf ln r c ts ->
+  let st' := run_tokens ts st in
+  on_row ln r (row_end c ts) st' /\ h_lines st' = h_lines st.
+Proof.
+  induction ts as [|t ts IH]; intros c st Hon Hwf; cbn [run_tokens fold_left row_end].
+  - split; [exact Hon|reflexivity].
+  - cbn [row_wf] in Hwf. destruct Hwf as (Ht & Hrest).
+    pose proof (hl_token_on_row ln r c st t Hon Ht) as Hstep.
+    destruct (new_type t) as [nt|].
+    + destruct Hrest as (Hle & Hrest). destruct (Hstep Hle) as (Hon' & Hlines & _).
+      destruct (IH _ _ Hon' Hrest) as (A & B). split; [exact A|]. unfold run_tokens in *. now rewrite B.
+    + rewrite Hstep. apply IH; assumption.
+Qed.
+
+(* the state at the first token of a row: fresh after the switch to a later row, or the initial state for row 1 *)
+Definition before_row (r : Z) (st : hst) : Prop := (h_curline st < r)%Z \/ (st = hst_init /\ r = 1%Z).
+(* hl_newline at the first token of row r *)
+Lemma newline_opens_row ln r st t :
+  before_row r st -> tk_srow t = r ->
+  on_row ln r 0 (hl_newline st t) /\
+  (h_lines (hl_newline st t) = h_lines st \/
+   exists closed, h_lines (hl_newline st t) = h_lines st ++ closed :: repeat [] (Z.to_nat (r - h_curline st - 1))).
+Proof.
+  intros [Hlt|(-> & ->)] Hr; unfold hl_newline.
+  - rewrite Hr. destruct (Z.ltb_spec (h_curline st) r); [|lia].
+    cbn [h_lines h_curline h_curcol h_buf h_type h_line h_last]. split.
+    + unfold on_row, text_of. cbn. repeat split; try lia. right. split; reflexivity.
+    + right. eexists. cbn [app]. reflexivity.
+  - rewrite Hr. cbn. split; [|left; reflexivity]. unfold on_row, text_of. cbn. repeat split; try lia. right. split; reflexivity.
+Qed.
+
+(* what a row looks like once it is closed *)
+Definition closes_as (ln : str) (closed : list chunk) : Prop := rstrip_ws (chunks_text closed) = rstrip_ws ln.
+(* NL occurs in a physical line at most as its last character *)
+Definition phys_line (ln : str) : Prop := ~ In NL (removelast ln).
+
+Lemma in_removelast_app (a b : str) x : b <> [] -> In x a -> In x (removelast (a ++ b)).
+Proof.
+  intros Hb Hx. rewrite removelast_app by exact Hb. apply in_or_app. now left.
+Qed.
+(* closing a row: the pending line, the rest of the buffer without its line break, what no token covered *)
+Lemma close_row ln r c st :
+  on_row ln r c st -> h_last st = Some ln -> phys_line ln -> h_type st <> None ->
+  closes_as ln (h_line st ++ flush_chunk (h_type st) (rstrip_nl (h_buf st) ++ line_rest st)).
+Proof.
+  intros (Hl & Hc & Hc0 & Ht & _) Hsome Hphys Hty.
+  destruct (h_type st) as [ty|]; [|contradiction]. unfold closes_as, flush_chunk.
+  rewrite chunks_text_app. unfold chunks_text at 2. cbn [flat_map snd]. rewrite app_nil_r.
+  unfold text_of in Ht. unfold line_rest. rewrite Hc, Hsome. remember (skipn (Z.to_nat c) ln) as R eqn:ER0.
+  assert (ln = chunks_text (h_line st) ++ h_buf st ++ R) as Eln.
+  { rewrite app_assoc, Ht, ER0. symmetry. apply firstn_skipn. }
+  clear ER0. destruct R as [|x R'].
+  - assert (rstrip_ws [] = []) as -> by reflexivity. rewrite app_nil_r. rewrite rstrip_nl_ws.
+    rewrite app_nil_r in Eln. now rewrite <- Eln.
+  - assert (~ In NL (h_buf st)) as Hno.
+    { intros Hin. apply Hphys. rewrite Eln, app_assoc. apply in_removelast_app; [discriminate|].
+      apply in_or_app. right. exact Hin. }
+    rewrite rstrip_nl_no_nl by exact Hno. rewrite app_assoc, rstrip_app_rstrip, <- app_assoc. now rewrite <- Eln.
+Qed.
